@@ -16,6 +16,7 @@ import Pyiga.Proofs.VFormPhys2
 import Pyiga.Proofs.VFormPhys3
 import Pyiga.Proofs.VFormPhys4
 import Pyiga.Proofs.VFormPhys5
+import Pyiga.Proofs.VFormPhys6
 import Mathlib.Tactic.NormNum
 import Mathlib.Data.Matrix.Mul
 import Mathlib.Data.Matrix.Diagonal
@@ -421,7 +422,7 @@ example : ChainRuleEnv (fun _ x => x) chainRuleExampleEnv 1 [] (fun _ _ => 2) wh
              have : c = 0 := by omega
              subst_vars; simp only [Finset.sum_range_one]; simp [chainRuleExampleEnv, unit2D, unitD, zerosD, bump]
   ght := by
-    intro k i j; rw [ev_geoHessTrfDef]
+    intro k i j _ _ _; rw [ev_geoHessTrfDef]
     simp only [Finset.sum_range_one]
     simp [chainRuleExampleEnv, unit2D, zerosD, bump]
 
@@ -454,14 +455,45 @@ theorem phys_to_para_sound_spacetime {α : Type} [Field α] [CharZero α] (fn : 
     ev (fieldOps fn) ρ (replacePhysAllST (d + 1) physIn e) i j = ev (fieldOps fn) ρ e i j :=
   replacePhysAllST_sound fn ρ d physIn J hE e hwf i j
 
+/-- **scheduled_phys_to_para** (dims 1–3) — `schedule_sound` composed with `phys_to_para_sound`; nothing is assumed about
+derived variables any more.  `base` holds only jets: the geometry `geo_a` with its parametric derivatives, and basis functions /
+input fields whose physical derivatives are *defined* by the chain rule w.r.t. the geometry Jacobian `J m i = ∂_{ξ_i} G_m`.
+Run the derived-variable program `physVarProg dim` — `Jac := grad_para Geo`, `JacInv := inv(Jac)`, every
+`_geo_hess_trf_k_i_j` — from ANY store (`SLP.run`, tensor-valued variables, each definition evaluated by `ev` in the environment
+`envOf` that reads derived variables from the store).  Then (1) the program is single-assignment and def-before-use, and
+(2) if the Jacobian is non-singular, the pass `replacePhysAll` preserves every entry of every well-formed expression tree in
+the resulting environment. -/
+theorem scheduled_phys_to_para {α : Type} [Field α] [CharZero α] (fn : String → α → α) (base : Env α) (dim : Nat)
+    (hdim : dim = 1 ∨ dim = 2 ∨ dim = 3) (physIn : List String) (σ0 : Store (List Nat → α))
+    (flag_bf : ∀ b D ph, dsum D = 0 → base.bf b D ph = base.bf b D false)
+    (flag_var : ∀ v I D p, dsum D = 0 → base.var v I D p = base.var v I D true)
+    (bf1 : ∀ b r, r < dim → base.bf b (unitD dim r) false
+      = ∑ m ∈ Finset.range dim, base.var "geo_a" [m] (unitD dim r) true * base.bf b (unitD dim m) true)
+    (bf2 : ∀ b r c, r < dim → c < dim → base.bf b (unit2D dim r c) false
+      = ∑ n ∈ Finset.range dim, (∑ m ∈ Finset.range dim, base.var "geo_a" [m] (unitD dim r) true * base.bf b (unit2D dim m n) true)
+            * base.var "geo_a" [n] (unitD dim c) true
+        + ∑ m ∈ Finset.range dim, base.bf b (unitD dim m) true * base.var "geo_a" [m] (unit2D dim r c) true)
+    (var1 : ∀ v I r, physIn.contains v = false → r < dim → base.var v I (unitD dim r) true
+      = ∑ m ∈ Finset.range dim, base.var "geo_a" [m] (unitD dim r) true * base.var v I (unitD dim m) false)
+    (var2 : ∀ v I r c, physIn.contains v = false → r < dim → c < dim → base.var v I (unit2D dim r c) true
+      = ∑ n ∈ Finset.range dim, (∑ m ∈ Finset.range dim, base.var "geo_a" [m] (unitD dim r) true * base.var v I (unit2D dim m n) false)
+            * base.var "geo_a" [n] (unitD dim c) true
+        + ∑ m ∈ Finset.range dim, base.var v I (unitD dim m) false * base.var "geo_a" [m] (unit2D dim r c) true)
+    (hdet : ev (fieldOps fn) (envOf base (physLets dim) (run (semOf fn base dim) (physVarProg dim) σ0))
+      (detL dim (varMat "Jac" dim dim dim)) 0 0 ≠ 0) :
+    defBeforeUse [] (physVarProg dim) = true ∧
+    ∀ e, allLeaves (idxLenOK dim) e = true → ∀ i j,
+      ev (fieldOps fn) (envOf base (physLets dim) (run (semOf fn base dim) (physVarProg dim) σ0)) (replacePhysAll dim physIn e) i j
+        = ev (fieldOps fn) (envOf base (physLets dim) (run (semOf fn base dim) (physVarProg dim) σ0)) e i j :=
+  Pyiga.VForm.scheduled_phys_to_para fn base dim hdim physIn σ0 flag_bf flag_var bf1 bf2 var1 var2 hdet
+
 /-- Full statement for the physical-derivative pass (kept as the one-line
 statement over *all* trees and the pass as a black box; every branch of the pass is now transliterated in
 `Model/VFormPhys.lean`, tied by exact structural diff, and proved above: `phys_to_para_first_order`,
 `phys_to_para_second_order` + `geo_hess_trf_value`, `phys_to_para_spacetime` + `spacetime_time_derivs`, `input_derivs_sound`,
 `measures_sound`, `jacinv_right_inverse`, `dx_expansion_sound`; and composed over all expression trees in `phys_to_para_sound`, which instantiates this statement with
-`replacePhys := replacePhysAll dim physIn` and `ChainRuleEnv ρ := ChainRuleEnv fn ρ dim physIn J`; outside that theorem remain the
-space-time pass at tree level (its node-level branch is `phys_to_para_spacetime`) and the creation of the `let` variables by the
-traversal, covered by `schedule_sound` and the before/after oracle): for every
+`replacePhys := replacePhysAll dim physIn` and `ChainRuleEnv ρ := ChainRuleEnv fn ρ dim physIn J`; the space-time pass is `phys_to_para_sound_spacetime`; the derived variables are no longer
+assumed: `scheduled_phys_to_para` runs their definitions as a def-before-use program and derives `ChainRuleEnv` (dims 1–3)): for every
 expression `e`, `⟦replace_physical_derivs e⟧ = ⟦e⟧` in every environment whose physical jets satisfy
 the chain-rule defining equations w.r.t. its parametric jets and the geometry jets. -/
 def phys_to_para_full : Prop :=
